@@ -216,6 +216,22 @@ func TestC07Exhaustive(t *testing.T) {
 			}
 		}
 	}
+	// long parts: the grammar sets no length limit, composing and parsing must still round-trip
+	if idx == 0 {
+		for _, L := range []int{63, 64, 100, 127, 128, 250, 254, 255, 256, 257, 300, 1000, 5000, 70000} {
+			long := "x" + strings.Repeat("a", L-2) + "9"
+			for _, parts := range [][3]string{{long, "c", "d"}, {"v", long, "d"}, {"v", "c", long}, {long, long, long}} {
+				if msg := checkCompose(parts[0], parts[1], parts[2]); msg != "" {
+					failQName(t, rec, parts[0]+"/"+parts[1]+"="+parts[2], clip(msg, 400))
+				}
+				s := parts[0] + "/" + parts[1] + "=" + parts[2]
+				if msg := checkQName(s); msg != "" {
+					failQName(t, rec, s, clip(msg, 400))
+				}
+				rec.Case(true, fmt.Sprintf("long-%d-%d-%d", len(parts[0]), len(parts[1]), len(parts[2])), nil, "valid", "long-parts")
+			}
+		}
+	}
 	// all valid part shapes of length 1..3 composed
 	heads := []string{"a", "Z"}
 	mids := []string{"", "a", "1", ".", "-", "_", "a.", "-1"}
@@ -326,6 +342,18 @@ func propC07(rec *stats.Rec) func(t *rapid.T) {
 		switch {
 		case kind <= 2: // valid by construction
 			v, c, n := genVC.Draw(t, "vendor"), genVC.Draw(t, "class"), genDevName.Draw(t, "name")
+			if rapid.IntRange(0, 7).Draw(t, "longPart") == 0 {
+				// the grammar sets no length limit
+				long := "x" + strings.Repeat(rapid.SampledFrom([]string{"a", "a.", "-9", "_"}).Draw(t, "fill"), rapid.IntRange(60, 700).Draw(t, "fillN")) + "z"
+				switch rapid.IntRange(0, 2).Draw(t, "longWhich") {
+				case 0:
+					v = long
+				case 1:
+					c = long
+				default:
+					n = long
+				}
+			}
 			if msg := checkCompose(v, c, n); msg != "" {
 				t.Fatalf("C07 compose: %s", msg)
 			}
